@@ -318,3 +318,17 @@ Definition run_c07 (n : net) : out :=
               OB (G07 n);
               onat (length (all_nodes rp n)) ]
        end.
+
+(* ---- the row numbers of the two ends of every branch of the line / trafo / trafo3w / xward tables (F_BUS, T_BUS of the
+   ppc branch rows after _switch_branches and _branches_with_oos_buses): row number = position in all_nodes *)
+Fixpoint pos_node (x : node) (l : list node) (k : nat) : option nat :=
+  match l with [] => None | y :: t => if node_eq_dec x y then Some k else pos_node x t (S k) end.
+Definition run_c07_rows (n : net) : out :=
+  let rp := rep n in
+  let A := all_nodes rp n in
+  let pr := fun ab : node * node => OL [oopt onat (pos_node (fst ab) A 0); oopt onat (pos_node (snd ab) A 0)] in
+  OL [ olist (fun jl : nat * br2 => pr (line_ends rp n (fst jl) (snd jl))) (enum (lines n));
+       olist (fun jt : nat * br2 => pr (trafo_ends rp n (fst jt) (snd jt))) (enum (trafos n));
+       olist (fun jt : nat * br3 => OL [pr (t3_ends rp n (fst jt) (snd jt) 0); pr (t3_ends rp n (fst jt) (snd jt) 1);
+                                        pr (t3_ends rp n (fst jt) (snd jt) 2)]) (enum (trafo3ws n));
+       olist (fun jx : nat * xward => pr (L (NB (rp (x_bus (snd jx)))), L (NXW (fst jx)))) (enum (xwards n)) ].
